@@ -8,6 +8,7 @@ campaign (goverter binary on scratch modules; direct calls of path/filepath and 
 import Gv.Model.Layout
 import Gv.Proofs.SettingsLemmas
 import Gv.Proofs.StrLemmas
+import Gv.Proofs.PathLemmas
 
 namespace Gv.Props.C15
 open Gv.Str Gv.Path Gv.Settings Gv.Layout
@@ -220,5 +221,38 @@ theorem place_nodup (ps : List Placed) : ∀ (fs out : List OutFile), place fs p
 
 theorem C15_one_file_per_path (ps : List Placed) (out : List OutFile) (h : place [] ps = .ok out) :
     (out.map (·.path)).Nodup := place_nodup ps [] out h (by simp)
+
+/-! ### a relative output:file that does not climb above the module root stays below it -/
+
+/-- **C15_output_under_root**: for a converter declared in `r/relDecl` (`r` a normal absolute directory, e.g. the module root)
+with a relative `output:file f` such that `dir(relDecl)/f` never climbs above its start, the output path is `r` itself or
+`r/k₁/…/kₙ` with normal components `kᵢ` (no "", ".", ".." left): a normal absolute path with prefix `r`; the part after `r`
+is a function of `relDecl` and `f` only -/
+theorem C15_output_under_root (r relDecl f : S) (hr : NormalAbs r) (hf : isAbs f = false)
+    (hne : NoEscape (lastSlashPrefix relDecl ++ f)) :
+    ∃ K, Normal K ∧
+      outputPath (r ++ '/' :: relDecl) f = r ++ (if K = [] then [] else '/' :: join ['/'] K) ∧
+      (if K = [] then [] else '/' :: join ['/'] K) = relTail (lastSlashPrefix relDecl ++ f) ∧
+      NormalAbs (outputPath (r ++ '/' :: relDecl) f) := by
+  obtain ⟨K, hK, e⟩ := relTail_normal _ hne
+  refine ⟨K, hK, ?_, e.symm, ?_⟩
+  · rw [outputPath_root r relDecl f hr hf hne, e]
+  · rw [outputPath_root r relDecl f hr hf hne]
+    exact normalAbs_append_relTail r _ hr hne
+
+/-- non-vacuity -/
+example : NormalAbs "/w/mod".toList ∧ isAbs "../x/./y.go".toList = false ∧
+    NoEscape (lastSlashPrefix "p/input.go".toList ++ "../x/./y.go".toList) ∧
+    outputPath "/w/mod/p/input.go".toList "../x/./y.go".toList = "/w/mod/x/y.go".toList := by decide
+
+/-- `filepath.Clean` is idempotent (a documented law of Go's `path.Clean`), for every path -/
+theorem C15_clean_idem (p : S) : clean (clean p) = clean p := clean_idem p
+
+/-- a relative output:file is always resolved to a path in canonical form (a fixed point of `filepath.Clean`) -/
+theorem C15_output_path_canonical (declFile f : S) (hf : isAbs f = false) :
+    clean (outputPath declFile f) = outputPath declFile f := outputPath_clean declFile f hf
+
+example : isAbs "a/../../b//c/.".toList = false ∧
+    outputPath "x/../y/in.go".toList "a/../../b//c/.".toList = "b/c".toList := by decide
 
 end Gv.Props.C15
